@@ -11,7 +11,7 @@ GUARD_STEPS = 250
 RULE = ('each run = one declared pair (weaker L\', stronger L) read from Meta.extension_of through the registry (every pair gets '
         'a floor share; 20% of runs use a pair from the transitive closure) and one argument in the vocabulary of L\' (no modal '
         'operator unless L\' is modal, no quantifier unless L\' is quantified; 40% mutated library examples, biased to arguments '
-        'L\' proves; 12% deep unary modal chains, 20% modal contradictions under modal prefixes / disjunctions next to their own sub-sentences, 15% quantifier-witness-at-another-world arguments for modal quantified L\'), proved in L\' and in L under 2 independent seeded configurations each. Every 6th run is a slice of a systematic sweep of all unary modal chains (length <= 6, thorough <= 7) x 3 kernels x 2 conclusions on D -> T, the one declared pair whose rule sets are not nested. If any run in L\' is valid, no run '
+        'L\' proves; 12% deep unary modal chains, 20% modal contradictions under modal prefixes / disjunctions next to their own sub-sentences, 15% quantifier-witness-at-another-world arguments for modal quantified L\'), proved in L\' and in L under 2 independent seeded configurations each. Every 6th run is a slice of a systematic sweep of all unary modal chains (length <= 6, thorough <= 7) x 3 kernels x 2 conclusions on D -> T, the one declared pair whose rule sets are not nested, and of the first-order node shapes in small contexts (the enumeration of C01) on every declared pair of non-modal quantified logics (quick: a seed-dependent third of it). If any run in L\' is valid, no run '
         'in L may be refuted by a limit-free open branch, and on the propositional fragment every verdict in L must be valid. '
         'distinct_nontrivial = distinct (pair, argument) with a valid verdict in the weaker logic')
 ASSUMPTIONS = [
@@ -143,6 +143,22 @@ def run(ctx):
             prems, conc = sweep_case(m)
             ctx.count('sweep_members')
             judge(ctx, SWEEP_PAIR[0], SWEEP_PAIR[1], prems, conc, ncfg=1)
+        # first-order sweep: the quantifier node shapes in small contexts that C01 enumerates, on every
+        # declared pair of non-modal quantified logics (quick: a seed-dependent third; thorough: all)
+        from . import c01
+        fpairs = [(w, st) for w, st in pairs()[0] if not refsem.get(w).modal and refsem.get(w).quantified and refsem.get(st).quantified]
+        total = c01.FO_SIZE * len(fpairs)
+        share = 3 if ctx.tier == 'quick' else 1
+        per = -(-(total // share) // nsweep)
+        off = (ctx.seed * 7919) % total
+        for e in range(j * per, (j + 1) * per):
+            e = (e * share + off) % total
+            weaker, stronger = fpairs[e % len(fpairs)]
+            prems, conc = c01.fo_case(e // len(fpairs))
+            ctx.count('fo_sweep_members')
+            judge(ctx, weaker, stronger, prems, conc, record=False, ncfg=1)
+            if ctx.violations:
+                return
         return
     judge(ctx, *make_case(ctx))
 
